@@ -129,9 +129,14 @@ class ServeManifest(RequestHandlerBase):
                 if pos != options.updateCount:
                     continue
             else:
-                tm = options.availabilityStartTime.replace(
+                # a time of day is only meaningful for a live stream, and is
+                # relative to its resolved availabilityStartTime
+                ast = getattr(context['mpd'], 'availabilityStartTime', None)
+                if not isinstance(ast, datetime.datetime):
+                    continue
+                tm = ast.replace(
                     hour=pos.hour, minute=pos.minute, second=pos.second)
-                tm2 = tm + datetime.timedelta(seconds=options.minimumUpdatePeriod)
+                tm2 = tm + datetime.timedelta(seconds=(options.minimumUpdatePeriod or 0))
                 if context['mpd'].now < tm or context['mpd'].now > tm2:
                     continue
             if (
